@@ -25,7 +25,8 @@ EXPLANATION = (
     ' R1 also decides, by scenario, that retention re-adds the current snapshot whenever it is missing from the kept set.'
     ' (R15) a delete reads EVERY manifest of the base snapshot: a manifest is carried over unchanged only after read_manifest_file in the same iteration.'
     ' (R16) numbers (sequence 0, schema id 0, cutoffs) are never truth-tested; (R17) itertools.groupby only over input sorted by the same key; R1 evaluates the expire predicate by scenario (current kept; a snapshot AT the cutoff kept), also through id sets.'
-    ' R0 also walks a parent CYCLE by scenario (the repointed parent is a survivor or None, never a removed id); R6: a metadata-log bound of 1 trims the log.')
+    ' R0 also walks a parent CYCLE by scenario (the repointed parent is a survivor or None, never a removed id); R6: a metadata-log bound of 1 trims the log.'
+    ' (R18) no memoising decorator (cached_property / lru_cache) anywhere - an index remembered on a metadata object outlives the list it was built from (C02.R6).')
 NOT_DECIDED = ("the invariants over operation histories (parents are true ancestors, log order, retention with out-of-order "
                "timestamps) at run time")
 
